@@ -13,9 +13,10 @@ var thoroughTier bool
 
 var alphas = map[string]alphaDef{
 	// general strings (first and further string parameters of the strings.* family)
-	"S": {sL("", "a", "ab", "X", " ", ",", "aXbXc", " pad ", "héllo wörld", "A,B,,C", "123", "-4.5e3", "a.b", "ǆx"),
+	"S": {sL("", "a", "ab", "X", " ", ",", "aXbXc", " pad ", "héllo wörld", "A,B,,C", "123", "-4.5e3", "a.b", "ǆx",
+		"aaa", "xxabcxx", "test.txt", "abcabc"),
 		sL("%d", "(a)(b)", "abab", "true", "c", "ö", "\xff", "Xc", "\t x\n", "ß",
-			"AbC", "abcabc", "  ", "a b  c", "\u00a0x", "İ", "ſ", "s", "K", "k")},
+			"AbC", "  ", "a b  c", "\u00a0x", "İ", "ſ", "s", "K", "k")},
 	// short strings for third/fourth string parameters
 	"SUB": {sL("", "a", "X", " ", ",", "ab", "ö"), sL("aX", "bX", "c")},
 	// pad strings
